@@ -187,6 +187,61 @@ pub fn run(ctx: &mut Ctx) {
         check_one(ctx, "shared", idx, &p);
     }
 
+    // values the application edited through public fields after building or parsing them: NSEC records whose window list is
+    // no longer in increasing order (the plain writer sorts what it writes; whatever the compressing writer does, both outputs
+    // must parse, and to the same packet)
+    for idx in 0..if ctx.slow_tool { 6 } else { tier.pick(1_500u64, 60_000u64) } {
+        if !ctx.take("edited-nsec", idx) {
+            continue;
+        }
+        let mut r = ctx.rng("edited-nsec", idx);
+        let mut g = Gen::new(&mut r, share_cfg());
+        let mut p = g.packet();
+        for k in 0..1 + idx % 2 {
+            let mut rec = g.record_of(47);
+            if let Some(first) = p.secs.iter().flatten().next() {
+                if k == 0 { rec.name = first.name.clone(); }
+            }
+            p.secs[((idx + k) % 3) as usize].push(rec);
+        }
+        let outcome = crate::monitor::guard(|| {
+            let mut lib = crate::bridge::to_lib(&p).map_err(|e| e.to_string())?;
+            let mut edited = 0u64;
+            for rr in lib.answers.iter_mut().chain(lib.name_servers.iter_mut()).chain(lib.additional_records.iter_mut()) {
+                if let simple_dns::rdata::RData::NSEC(n) = &mut rr.rdata {
+                    if n.type_bit_maps.len() >= 2 {
+                        if idx % 3 == 0 { n.type_bit_maps.swap(0, 1) } else { n.type_bit_maps.reverse() }
+                        edited += 1;
+                    }
+                }
+            }
+            let plain = lib.build_bytes_vec().map_err(|e| format!("build_bytes_vec: {:?}", e))?;
+            let comp = lib.build_bytes_vec_compressed().map_err(|e| format!("build_bytes_vec_compressed: {:?}", e))?;
+            Ok::<_, String>((edited, plain, comp))
+        });
+        let case = || gen_case("edited-nsec", idx, &p, json!({}));
+        match outcome {
+            Err(pn) => ctx.panic_violation("building a packet with edited NSEC windows", &pn, case()),
+            Ok(Err(e)) => { ctx.count("edited_nsec_outside_constructor_domain"); let _ = e; }
+            Ok(Ok((edited, plain, comp))) => {
+                ctx.case(edited > 0, fnv(&plain) ^ 0xED17);
+                ctx.add("nsec_records_with_reordered_windows", edited);
+                match (parse_obs(&plain), parse_obs(&comp)) {
+                    (Ok(Ok(a)), Ok(Ok(b))) => {
+                        if let Some(d) = diff_pkt(&a, &b) {
+                            ctx.violation("compression-transparent", &format!("compressed-differs:{}:{}", diff_type(&a, &b), diff_field(&a, &b)), format!("parse(compressed) differs from parse(plain) for a packet with edited NSEC windows: {}", d), case());
+                        } else {
+                            ctx.count("edited_values_transparent");
+                        }
+                    }
+                    (Ok(Ok(_)), Ok(Err(e))) => ctx.violation("parse-own-output", "parse-own-output:build_bytes_vec_compressed:NSEC-edited", format!("the plain output parses, the compressed output of the same packet is rejected: {}", e), case()),
+                    (Ok(Err(_)), _) => ctx.count("edited_nsec_plain_output_rejected_(outside_the_property)"),
+                    (Err(pn), _) | (_, Err(pn)) => ctx.panic_violation("Packet::parse (own output)", &pn, case()),
+                }
+            }
+        }
+    }
+
     // size sweep: first occurrence at every offset of the window around 16384
     if !ctx.slow_tool {
         let reps = tier.pick(4u64, 60u64);
